@@ -1271,6 +1271,13 @@ class ConnectionBase(object):
         # ensure that this packet validates correctly
 
         try:
+            if not self.session_key_bytes:
+                # the only packet that is accepted before a key has been
+                # agreed on is the hello that starts the handshake,
+                # holding a single message
+                expected = PacketType.CLIENT_HELLO if self.isServer else PacketType.SERVER_HELLO
+                if hdr.pkt_type != expected or hdr.count != 1:
+                    raise PacketError("unexpected unencrypted packet")
             pkt = Packet.from_bytes(hdr, self.session_key_bytes, datagram)
         except Exception as e:
             #self.log.exception("unable to decode packet %s", hdr)
